@@ -190,13 +190,15 @@ package queue
 
 //@ func (*MemoryStore).dropOldestQueuedLocked
 //@   monitor locked
-//@   requires s != nil && wf(s)
+//@   requires s != nil && wf(s) && J7(s)
 //@   modifies s.items, s.leases, s.evictionsTotalByReason, field(s.evictionsTotalByReason), lastEvicted
-//@   loop 1 invariant [none_before] forall j int :: 0 <= j && j <= rangeindex ==> !(s.order[j] in s.items && s.items[s.order[j]].State == StateQueued)
+//@   loop 1 invariant [nothing_changes_while_searching] viewUnchanged(s) && leasesSame(s) && lastEvicted == old(lastEvicted)
+//@   loop 1 invariant [none_before] !found ==> forall j int :: 0 <= j && j <= rangeindex ==> !(s.order[j] in s.items && s.items[s.order[j]].State == StateQueued)
+//@   loop 1 invariant [oldest_so_far] found ==> victim in s.items && s.items[victim].State == StateQueued && oldest == s.items[victim].ReceivedAt && forall j int :: 0 <= j && j <= rangeindex ==> (s.order[j] in s.items && s.items[s.order[j]].State == StateQueued ==> oldest <= s.items[s.order[j]].ReceivedAt)
 //@   ensures [C12:victim_was_queued] let v := lastEvicted :: result ==> old(v in s.items) && old(s.items[v].State) == StateQueued && !(v in s.items)
 //@   ensures [C12:one_victim] result ==> (forall id2 string :: id2 != lastEvicted ==> ((id2 in s.items) <==> old(id2 in s.items)) && s.items[id2] == old(s.items[id2])) && leasesSame(s)
-//@   ensures [C12:oldest_first] result ==> exists i int :: 0 <= i && i < len(s.order) && s.order[i] == lastEvicted && (forall j int :: 0 <= j && j < i ==> !(old(s.order[j] in s.items) && old(s.items[s.order[j]].State) == StateQueued))
-//@   ensures [C12:none_left] !result ==> (forall j int :: 0 <= j && j < len(s.order) ==> !(s.order[j] in s.items && s.items[s.order[j]].State == StateQueued)) && (forall id2 string :: ((id2 in s.items) <==> old(id2 in s.items)) && s.items[id2] == old(s.items[id2])) && leasesSame(s) && lastEvicted == old(lastEvicted)
+//@   ensures [C12:oldest_first] let v := lastEvicted :: result ==> forall id2 string :: old(id2 in s.items) && old(s.items[id2].State) == StateQueued ==> old(s.items[v].ReceivedAt) <= old(s.items[id2].ReceivedAt)
+//@   ensures [C12:none_left] !result ==> (forall id2 string :: old(id2 in s.items) ==> old(s.items[id2].State) != StateQueued) && (forall id2 string :: ((id2 in s.items) <==> old(id2 in s.items)) && s.items[id2] == old(s.items[id2])) && leasesSame(s) && lastEvicted == old(lastEvicted)
 //@   ensures [wf] wf(s)
 
 // memory-pressure accounting reads the store and changes nothing (frame obligations only)
